@@ -12,8 +12,6 @@ Definition it_skip_beside (it : item) : bool := has_skip it && negb (existsb gro
 Definition it_escape (it : item) : bool := match rename_of it with Some v => needs_escape v | None => false end.
 Definition it_rename_text (it : item) : bool :=
   existsb (fun m => match m with MRename _ => false | _ => contains (L "rename") (meta_text m) end) (concat (it_attrs it)).
-Definition it_rules (r : rule) (it : item) : bool :=
-  match rename_of it with None => negb (has_skip it) && rules_differ r (it_ident it) | Some _ => false end.
 
 Lemma item_rename_ok it : item_ok it = true -> it_escape it = false -> it_rename_text it = false ->
   fst (field_attrs (map group_string (it_attrs it))) = rename_of it.
@@ -26,25 +24,28 @@ Lemma default_is_snake : default_case default_field_case = RSnake.
 Proof. reflexivity. Qed.
 
 Lemma name_field it ra : item_ok it = true ->
-  compute_field_name default_field_case (it_ident it) (rename_of it) ra = Ok (wire_name KStruct ra it).
+  compute_field_name default_field_case (it_ident it) (rename_of it) ra = wire_name KStruct ra it.
 Proof. intros Hok. unfold item_ok in Hok. apply andb_true_iff in Hok as [Hok _]. apply andb_true_iff in Hok as [Hid _].
   unfold compute_field_name, wire_name. destruct (rename_of it) as [v|]; [reflexivity|].
   destruct ra as [r|]; [apply apply_field_ok; exact Hid|]. rewrite default_is_snake. reflexivity. Qed.
 
-Lemma name_variant it ra : item_ok it = true -> has_skip it = false ->
-  match ra with Some r => it_rules r it = false | None => True end ->
-  compute_field_name default_field_case (it_ident it) (rename_of it) ra = Ok (wire_name KEnum ra it).
-Proof. intros Hok Hs Hr. unfold item_ok in Hok. apply andb_true_iff in Hok as [Hok _]. apply andb_true_iff in Hok as [Hid _].
-  unfold compute_field_name, wire_name. unfold it_rules in Hr. destruct (rename_of it) as [v|]; [reflexivity|].
-  destruct ra as [r|]; [|rewrite default_is_snake; reflexivity].
-  rewrite Hs in Hr. cbn [negb andb] in Hr. cbn [is_struct]. rewrite (apply_field_ok r _ Hid), (rules_agree r _ Hid Hr). reflexivity. Qed.
+Lemma name_variant it ra : item_ok it = true ->
+  compute_variant_name (it_ident it) (rename_of it) ra = Ok (wire_name KEnum ra it).
+Proof. intros Hok. unfold item_ok in Hok. apply andb_true_iff in Hok as [Hok _]. apply andb_true_iff in Hok as [Hid _].
+  unfold compute_variant_name, wire_name. destruct (rename_of it) as [v|]; [reflexivity|].
+  destruct ra as [r|]; [|reflexivity]. cbn [is_struct]. apply apply_variant_ok. exact Hid. Qed.
 
-Lemma emit_struct ra items :
+Lemma name_item k it ra : item_ok it = true ->
+  (if is_struct k then Ok (compute_field_name default_field_case (it_ident it) (rename_of it) ra)
+   else compute_variant_name (it_ident it) (rename_of it) ra) = Ok (wire_name k ra it).
+Proof. intros Hok. destruct k; cbn [is_struct]; [rewrite (name_field it ra Hok); reflexivity|apply name_variant; exact Hok]. Qed.
+
+Lemma emit_ok k ra items :
   forallb item_ok items = true ->
   existsb it_skip_text items = false -> existsb it_skip_beside items = false ->
   existsb it_escape items = false -> existsb it_rename_text items = false ->
-  emit_raw KStruct default_field_case ra (map item_raw items)
-  = Ok (map (wire_name KStruct ra) (filter (fun it => negb (has_skip it)) items)).
+  emit_raw k default_field_case ra (map item_raw items)
+  = Ok (map (wire_name k ra) (filter (fun it => negb (has_skip it)) items)).
 Proof. induction items as [|it items IH]; intros Hok H2 H3 H4 H5; [reflexivity|].
   cbn [forallb] in Hok. apply andb_true_iff in Hok as [Hit Hok].
   cbn [existsb] in H2, H3, H4, H5.
@@ -57,40 +58,18 @@ Proof. induction items as [|it items IH]; intros Hok H2 H3 H4 H5; [reflexivity|]
   destruct (has_skip it) eqn:Hs.
   - unfold it_skip_beside in A3. rewrite Hs in A3. cbn [andb] in A3. apply negb_false_iff in A3.
     pose proof (item_skip_true it Hs A3) as Hsk. rewrite E in Hsk. cbn [snd] in Hsk. subst sk.
-    cbn [is_struct andb negb]. exact IH.
+    cbn [negb]. exact IH.
   - unfold it_skip_text in A2. rewrite Hs in A2. cbn [negb andb] in A2.
     pose proof (item_skip_false it Hs A2) as Hsk. rewrite E in Hsk. cbn [snd] in Hsk. subst sk.
-    cbn [is_struct andb negb map]. rewrite (name_field it ra Hit), IH. reflexivity. Qed.
-
-Lemma emit_enum ra items :
-  forallb item_ok items = true ->
-  existsb has_skip items = false ->
-  match ra with Some r => existsb (it_rules r) items = false | None => True end ->
-  existsb it_escape items = false -> existsb it_rename_text items = false ->
-  emit_raw KEnum default_field_case ra (map item_raw items)
-  = Ok (map (wire_name KEnum ra) (filter (fun it => negb (has_skip it)) items)).
-Proof. induction items as [|it items IH]; intros Hok H6 H1 H4 H5; [reflexivity|].
-  cbn [forallb] in Hok. apply andb_true_iff in Hok as [Hit Hok].
-  cbn [existsb] in H6, H4, H5.
-  apply orb_false_iff in H6 as [A6 H6]. apply orb_false_iff in H4 as [A4 H4]. apply orb_false_iff in H5 as [A5 H5].
-  assert (match ra with Some r => it_rules r it = false | None => True end /\
-          match ra with Some r => existsb (it_rules r) items = false | None => True end) as [A1 H1'].
-  { destruct ra as [r|]; [|split; exact I]. cbn [existsb] in H1. apply orb_false_iff in H1. exact H1. }
-  specialize (IH Hok H6 H1' H4 H5).
-  cbn [map emit_raw item_raw filter].
-  pose proof (item_rename_ok it Hit A4 A5) as Hrn.
-  destruct (field_attrs (map group_string (it_attrs it))) as [rn sk] eqn:E. cbn [fst] in Hrn. subst rn.
-  rewrite A6. cbn [is_struct andb negb map]. rewrite (name_variant it ra Hit A6 A1), IH. reflexivity. Qed.
+    cbn [negb map]. rewrite (name_item k it ra Hit), IH. reflexivity. Qed.
 
 Theorem names_correct c : in_domain c = true -> kf_C06 c = false ->
   emitted_keys default_field_case c = Ok (serde_wire_names c).
 Proof. intros Hd Hk. unfold emitted_keys, emitted_keys_raw, serde_wire_names. rewrite (struct_attrs_container c Hd).
   unfold kf_C06 in Hk. repeat (apply orb_false_iff in Hk as [Hk ?]).
   unfold in_domain in Hd. apply andb_true_iff in Hd as [Hd _]. apply andb_true_iff in Hd as [Hd _]. apply andb_true_iff in Hd as [Hitems _].
-  unfold kf_variant_rule, kf_skip_text, kf_skip_beside, kf_rename_escape, kf_rename_text, kf_variant_skip in *.
-  destruct (c_kind c); cbn [is_struct negb andb] in *.
-  - apply emit_struct; assumption.
-  - apply emit_enum; try assumption. destruct (container_rule c); [assumption|exact I]. Qed.
+  unfold kf_skip_text, kf_skip_beside, kf_rename_escape, kf_rename_text in *.
+  apply emit_ok; assumption. Qed.
 
 (* ------------------------------------------------------------------ other attributes are inert *)
 Lemma first_rename_core l : first_rename (filter (fun m => negb (is_other m)) l) = first_rename l.
@@ -138,7 +117,10 @@ Definition w6 : container := {| c_kind := KEnum; c_attrs := []; c_items := [it0 
 Definition refutes (kf : container -> bool) (w : container) (got : list str) : Prop :=
   in_domain w = true /\ kf w = true /\ emitted_keys default_field_case w = Ok got /\ c06_ok w got = false.
 
-Lemma variant_rule_refuted : refutes kf_variant_rule w1 [L "INPROGRESS"; L "DONE"] /\ serde_wire_names w1 = [L "IN_PROGRESS"; L "DONE"].
+(* repaired (C06-1-variant-rule): the old witness now satisfies the property *)
+Lemma variant_rule_repaired : in_domain w1 = true /\ kf_C06 w1 = false /\
+  emitted_keys default_field_case w1 = Ok [L "IN_PROGRESS"; L "DONE"] /\ c06_ok w1 [L "IN_PROGRESS"; L "DONE"] = true
+  /\ c06_ok w1 [L "INPROGRESS"; L "DONE"] = false.
 Proof. vm_compute. repeat split. Qed.
 Lemma skip_text_refuted : refutes kf_skip_text w2 [L "a"] /\ serde_wire_names w2 = [L "a"; L "b"; L "c"].
 Proof. vm_compute. repeat split. Qed.
@@ -148,7 +130,18 @@ Lemma rename_escape_refuted : refutes kf_rename_escape w4 [["a"; "\"]] /\ serde_
 Proof. vm_compute. repeat split. Qed.
 Lemma rename_text_refuted : refutes kf_rename_text w5 [L "x"] /\ serde_wire_names w5 = [L "e"].
 Proof. vm_compute. repeat split. Qed.
-Lemma variant_skip_refuted : refutes kf_variant_skip w6 [L "Active"; L "Gone"] /\ serde_wire_names w6 = [L "Active"].
+(* repaired (C06-6-variant-skip): the old witness now satisfies the property *)
+Lemma variant_skip_repaired : in_domain w6 = true /\ kf_C06 w6 = false /\
+  emitted_keys default_field_case w6 = Ok [L "Active"] /\ c06_ok w6 [L "Active"] = true /\ c06_ok w6 [L "Active"; L "Gone"] = false.
+Proof. vm_compute. repeat split. Qed.
+(* the two skip classes now reach enum variants as well (parse_enum filters with the same flag) *)
+Definition w2e : container := {| c_kind := KEnum; c_attrs := [];
+  c_items := [it0 "A" []; it0 "B" [[MOther (L "alias") (Some (L "skip_me"))]]] |}.
+Definition w3e : container := {| c_kind := KEnum; c_attrs := [];
+  c_items := [it0 "A" []; it0 "B" [[MSkip; MOther (L "skip_deserializing_x") None; MOther (L "alias") (Some (L "skip_serializing"))]]] |}.
+Lemma skip_text_variant_refuted : refutes kf_skip_text w2e [L "A"] /\ serde_wire_names w2e = [L "A"; L "B"].
+Proof. vm_compute. repeat split. Qed.
+Lemma skip_beside_variant_refuted : refutes kf_skip_beside w3e [L "A"; L "B"] /\ serde_wire_names w3e = [L "A"].
 Proof. vm_compute. repeat split. Qed.
 
 (* adding skip_serializing_if beside skip changes the emitted keys: inertness fails inside C06-3 *)
